@@ -2,7 +2,7 @@
    sumbool, sumor are mapped to OCaml's own; everything else (nat, N, byte) stays inductive. *)
 Require Extraction.
 Require Import ExtrOcamlBasic.
-From Keto Require Import Base.Bytes Api.Codec Api.CodecProofs.
+From Keto Require Import Base.Bytes Api.Codec Api.CodecProofs Store.Sql Store.Mapping Store.Api Store.Spec.
 Extraction Blacklist List String Bytes.
 Separate Extraction
   Codec.tuple_from_string Codec.tuple_string Codec.dom_string
@@ -11,4 +11,6 @@ Separate Extraction
   Codec.query_to_proto Codec.query_from_data_provider
   Codec.tuple_to_json Codec.query_to_json Codec.tuple_from_json Codec.query_from_json
   CodecProofs.d13_class Codec.one_subject Codec.atmost_one_subject
-  Bytes.bytes_eqb Bytes.noparen_ends.
+  Bytes.bytes_eqb Bytes.noparen_ends
+  Sql.empty_db Sql.no_faults Api.step Api.run Spec.spec_insert Spec.spec_delete Spec.spec_delete_q Spec.spec_transact Spec.spec_list
+  Sql.GetRelationTuples Sql.TraverseSubjectSetExpansion Sql.exists_relation_in Sql.ExistsRelationTuples Mapping.ToTuple Mapping.FromTuple.
